@@ -54,9 +54,10 @@ TGetTx == /\ Is("gettx")
           /\ UNCHANGED vars
 
 TInclude == Is("include") /\ Include(Ev.tx)
+TFail == Is("fail") /\ IncludeFailed(Ev.tx)
 TCrash == Is("crash") /\ Crash
 
-TNext == TReset \/ TBoot \/ TFile \/ TRpcPrepare \/ TBroadcast \/ TGetTx \/ TInclude \/ TCrash
+TNext == TReset \/ TBoot \/ TFile \/ TRpcPrepare \/ TBroadcast \/ TGetTx \/ TInclude \/ TFail \/ TCrash
 TSpec == TInit /\ [][TNext]_tvars
 
 Accepted == LET d == TLCGet("stats").diameter IN
